@@ -1,4 +1,4 @@
-"""C02 / C03 / C11 / C13 — Biomolecule.apply_patch, the function every titration state, terminus and disulfide goes through
+"""C02 / C03 / C04 / C11 / C13 — Biomolecule.apply_patch, the function every titration state, terminus and disulfide goes through
 (it is a trusted stub in the other side-cars; here it is under contract itself).
   * the patch is recorded exactly once; the atoms the patch removes are gone from the residue (map and list agree), every
     other atom stays, same objects, same order;
@@ -61,7 +61,7 @@ def mentions(refmap, name):
 
 for _pn, _patch in PATCHES.items():
     contract(
-        "pdb2pqr.biomolecule:Biomolecule.apply_patch", ["C02", "C03", "C11", "C13"],
+        "pdb2pqr.biomolecule:Biomolecule.apply_patch", ["C02", "C03", "C04", "C11", "C13"],
         params={"self": Obj("pdb2pqr.biomolecule:Biomolecule",
                             definition=Obj("pdb2pqr.definitions:Definition", patches=DictOf((_pn, Named("patch", _patch))))),
                 "patchname": Const(_pn), "residue": _residue()},
@@ -78,7 +78,7 @@ for _pn, _patch in PATCHES.items():
             "forall(patch.map, lambda k: k in residue.reference.map)",
             "forall(patch.dihedrals, lambda d: d in residue.reference.dihedrals) and 'N CA CB SG' in residue.reference.dihedrals",
             # atoms follow the patch's renaming and point into the new topology
-            "hb2.name == ('HB3' if 'HB2' in patch.altnames else 'HB2')",
+            "hb2.name == ('HB3' if old('HB2' in patch.altnames) else 'HB2')",
             "forall(residue.atoms, lambda a: implies(a.name in residue.reference.map, a.reference is residue.reference.map[a.name]))",
             # what is left of the old topology is a faithful copy
             "residue.reference.map['SG'].name == 'SG' and 'CB' in residue.reference.map['SG'].bonds",
@@ -98,7 +98,7 @@ def kept(a, r):
 
 
 contract(
-    "pdb2pqr.biomolecule:Biomolecule.apply_patch", ["C02", "C03", "C11", "C13"],
+    "pdb2pqr.biomolecule:Biomolecule.apply_patch", ["C02", "C03", "C04", "C11", "C13"],
     params={"self": Obj("pdb2pqr.biomolecule:Biomolecule",
                         definition=Obj("pdb2pqr.definitions:Definition", patches=DictOf(("ANY", Named("patch", Obj(
                             "pdb2pqr.definitions:Patch", name=Const("ANY"),
